@@ -65,6 +65,7 @@ func cmdVerify(args []string) {
 		os.Exit(2)
 	}
 	fmt.Printf("loaded in %.1fs (contracts from %s)\n", time.Since(t0).Seconds(), e.contractSource)
+	e.loadNameAliases("/verif")
 	dir := *work
 	if dir == "" {
 		dir, _ = os.MkdirTemp("", "hvc")
